@@ -171,9 +171,28 @@ Theorem C20_out_actual_old_refuted :
     lint_model_f20 root p = Some [DMissing (tk 0) [(5, tk 9)]].
 Proof. exact out_actual_old_refuted. Qed.
 
+(* ---- unit level: which processes are linted ----
+   `analyze_unit` runs on every design unit of every kind and lints every process statement the Search traversal
+   reaches: in the statement part of an architecture body AND of an entity declaration (passive processes),
+   directly or nested in block and for/if/case generate statements; plain, labelled or postponed.  For all of
+   them the diagnostics are the concatenation of what the statement says per process (`expected`: spec_diags for
+   a combinational process with a list of names, nothing otherwise), provided every process is `covered`. *)
+Theorem C20_unit_exact :
+  forall root u, Forall (covered root) (procs_of u) ->
+    analyze_unit root u = Some (flat_map (expected root) (procs_of u)).
+Proof. exact unit_exact. Qed.
+(* seeded variant "only architecture bodies are searched": a passive process in an entity is missed *)
+Theorem C20_unit_arch_only_refuted :
+  Forall (covered root6) (procs_of u_entity) /\
+  analyze_unit root6 u_entity = Some [DMissing (tk 0) [(6, tk 9)]] /\
+  analyze_unit_arch_only root6 u_entity = Some [] /\
+  analyze_unit_arch_only root6 u_entity <> Some (flat_map (expected root6) (procs_of u_entity)).
+Proof. exact unit_arch_only_refuted. Qed.
+
 (* ---- the linter's per-unit cache (`SensitivityListLinter::lint`, Lint/SensCache.v) ----
-   D = the diagnostics `analyze_unit` yields for one unit (in C20: the `lint_model` diagnostics of the processes
-   of that unit).  `wf_hist` is what `DesignRoot::analyze` guarantees about `analyzed_units`: a unit that exists
+   D = the diagnostics `analyze_unit` yields for one unit (C20_unit_exact: the `lint_model` diagnostics of all
+   processes of that unit, entity or architecture).  `reported lib` = `config.get_library(name)` finds the library
+   under the name it is configured with (verbatim spelling, any letter case) and it is not third party.  `wf_hist` is what `DesignRoot::analyze` guarantees about `analyzed_units`: a unit that exists
    and is not reported as analysed existed at the previous call with the same result. *)
 (* after any history of lint calls the emitted diagnostics are exactly those of the units that exist now
    (in the libraries that are configured and not third party), whatever was cached before *)
@@ -227,6 +246,8 @@ Print Assumptions C20_f20_now.
 Print Assumptions C20_out_actual_old_refuted.
 Print Assumptions C20_port_is_signal.
 Print Assumptions C20_out_port_read.
+Print Assumptions C20_unit_exact.
+Print Assumptions C20_unit_arch_only_refuted.
 Print Assumptions C20_cache_history_exact.
 Print Assumptions C20_cache_every_step_exact.
 Print Assumptions C20_cache_prune_by_primary_refuted.
